@@ -228,7 +228,7 @@ theorem getQNames_finv : ∀ (d : List (Str × Bool)) (st : Store) (m : Mgr),
     simp only [getQNames]
     exact getQNames_finv r (Mgr.computeQname st m u g).1 (Mgr.computeQname st m u g).2.1 (computeQname_finv h st u g)
 
-theorem strictSeq_finv : ∀ (us : List Str) (st : Store) (m : Mgr) (acc : List QN),
+theorem strictSeq_finv : ∀ (us : List Str) (st : Store) (m : Mgr) (acc : List (Str × QN)),
     FInv m.trie → FInv (strictSeq us st m acc).2.1.trie
   | [], _, _, _, h => h
   | u :: r, st, m, acc, h => by
@@ -237,7 +237,7 @@ theorem strictSeq_finv : ∀ (us : List Str) (st : Store) (m : Mgr) (acc : List 
     split
     · exact h0
     · next a _ =>
-      exact strictSeq_finv r (Mgr.computeQnameStrict st m u true).1 (Mgr.computeQnameStrict st m u true).2.1 (acc ++ [a]) h0
+      exact strictSeq_finv r (Mgr.computeQnameStrict st m u true).1 (Mgr.computeQnameStrict st m u true).2.1 (acc ++ [(u, a)]) h0
 
 theorem serXml_finv (preds stmts : List Str) (st : Store) (m : Mgr) (h : FInv m.trie) :
     FInv (serXml preds stmts st m).2.1.trie := by
